@@ -170,9 +170,10 @@ func runC20(c *core.Ctx) *core.Outcome {
 				return finishModel(o, c, r).Fail("graceful-end-not-stopping", i, nil, "request %d input %s: code ran out right after HALT at %v but the engine reports continue", i, short(string(in)), r.m.Path)
 			}
 			if ob.st.FlushErr != "" {
-				// the final page could not be rendered: nothing further is specified
+				// the final page could not be rendered (nothing says what the client then receives), but the
+				// session has ended all the same: the next request must start it again like after any other end
 				o.Probes["graceful_end_render_refused"]++
-				break
+				continue
 			}
 			if ob.st.FlushErr == "" && ob.st.Out == "" {
 				return finishModel(o, c, r).Fail("graceful-end-no-output", i, nil, "request %d input %s: the session ended gracefully but no final output was delivered", i, short(string(in)))
